@@ -429,6 +429,19 @@ func (x *Exec) applyModifies(post, pre *State, fr *Frame, env *Env, m *SExpr, wh
 			x.modifyAbs(post, fr, ov, where, 0)
 			return
 		}
+		// deref(p): the variable the pointer p points to
+		if m.X.K == "ident" && m.X.Name == "deref" && len(m.Args) == 1 {
+			pv := x.eval(env, m.Args[0])
+			a := x.ptrAddr(pv)
+			if a == nil {
+				x.abort(post, "modifies: cannot resolve "+m.String())
+				return
+			}
+			x.checkFrame(post, fr, a, where)
+			x.storeAddrRaw(post, a, x.freshVal("mod.deref", a.T, nil))
+			post.assume(x.typeInv(x.loadAddr(post, a), post))
+			return
+		}
 		x.abort(post, "modifies: unsupported item "+m.String())
 	default:
 		x.abort(post, "modifies: unsupported item "+m.String())
